@@ -25,12 +25,11 @@ type rtrans struct {
 	grp    []*OptDecl
 }
 
-
 type NFA struct {
 	regexGroups bool
-	tr    [][]rtrans
-	Start int
-	Final int
+	tr          [][]rtrans
+	Start       int
+	Final       int
 }
 
 func (n *NFA) newState() int {
@@ -252,7 +251,6 @@ type cfg struct {
 	ended bool
 	run   []Occ
 }
-
 
 func runKey(run []Occ) string {
 	var sb strings.Builder
